@@ -15,6 +15,7 @@ Further twins with the same seed must give the same stream, because they are 'th
 another way: a simulation built with other settings and brought to the workload's by re-assigning the documented
 attributes; one whose settings are assigned other values in mid-run and at once put back; and one whose first plain
 moves are handed to the driver's constructor instead of add_move (same names, order and settings).
+Two workloads send log and trajectory to one stream, whose bytes depend on the order of the observer calls.
 """
 from __future__ import annotations
 
@@ -61,6 +62,10 @@ def workloads(tier):
     w.append(("grand-molecular", {"driver": "GrandCanonical", "T": 2500.0, "mu": -0.02, "cycles": 3, "species": 2, "atoms": mols, "calc": {"kind": "soft"}, "table": [{"name": "x", "move": {"t": "E", "op": {"t": "TranslationRotation"}}}, {"name": "d", "move": {"t": "D", "op": {"t": "TranslationRotation"}}}]}))
     w.append(("forcebias", {"driver": "ForceBias", "T": 300.0, "delta": 0.15, "atoms": {"kind": "mixed", "n": 5, "edge": 8.0, "pbc": False, "seed": 6}, "calc": {"kind": "harmonic", "k": 1.0}}))
     w.append(("adaptive-forcebias", {"driver": "AdaptiveForceBias", "T": 300.0, "delta": 0.2, "atoms": {"kind": "mixed", "n": 5, "edge": 8.0, "pbc": False, "seed": 7}, "calc": {"kind": "committee"}}))
+    # one stream for the log and the trajectory (everything a run says in one file): its bytes depend on the order in which
+    # the observers are called at each step, which is part of the configuration and the same in every replica
+    w.append(("canonical-one-stream", {"driver": "Canonical", "T": 600.0, "cycles": 2, "shared_stream": True, "atoms": gas, "calc": {"kind": "soft"}, "table": [{"name": "d", "move": D()}, {"name": "b", "move": D("Box")}]}))
+    w.append(("grand-one-stream", {"driver": "GrandCanonical", "T": 1500.0, "mu": -0.05, "cycles": 2, "species": 1, "shared_stream": True, "atoms": gas, "calc": {"kind": "soft"}, "table": [{"name": "x", "move": {"t": "E"}}, {"name": "d", "move": D()}]}))
     if tier != "quick":
         w.append(("grand-composite", {"driver": "GrandCanonical", "T": 1500.0, "mu": -0.05, "cycles": 2, "species": 1, "atoms": gas, "calc": {"kind": "soft"}, "table": [{"name": "xd", "move": {"t": "+", "parts": [D(), {"t": "E"}]}, "criteria": "random:0.5"}, {"name": "d", "move": D()}]}))
         w.append(("adaptive-energy", {"driver": "AdaptiveForceBias", "T": 600.0, "delta": 0.2, "scheme": "energy", "update": "exp", "notraj": True, "atoms": {"kind": "mixed", "n": 4, "edge": 8.0, "pbc": False, "seed": 8}, "calc": {"kind": "committee", "energies": True}}))
@@ -240,6 +245,8 @@ def run_stream(w, seed, steps, perturb_seed=None, reassign=False):
             todo = todo[::-1]
 
     log, traj, rst = io.StringIO(), io.StringIO(), io.StringIO()
+    if w.get("shared_stream"):
+        traj = log
     kw = {"logfile": log, "logging_interval": 1}
     is_mc = w["driver"] not in ("ForceBias", "AdaptiveForceBias")
     if not w.get("notraj"):
@@ -247,7 +254,7 @@ def run_stream(w, seed, steps, perturb_seed=None, reassign=False):
     if is_mc:
         kw["restart_file"] = rst
     TRIP["calls"].clear()
-    mc, info = sims.build({k: v for k, v in {**w, "seed": seed}.items() if k != "notraj"}, **kw)
+    mc, info = sims.build({k: v for k, v in {**w, "seed": seed}.items() if k not in ("notraj", "shared_stream")}, **kw)
     retune(mc, todo)
     if perturb_seed is not None:
         np.random.seed(perturb_seed % 2**32)
@@ -267,7 +274,7 @@ def run_stream(w, seed, steps, perturb_seed=None, reassign=False):
         if excursion is not None and len(stream) == max(1, steps // 3):
             w_off, todo_back = excursion
             back = detune_values(mc, todo_back)
-            mc_off, _ = sims.build({k: v for k, v in {**w_off, "seed": seed}.items() if k != "notraj"})
+            mc_off, _ = sims.build({k: v for k, v in {**w_off, "seed": seed}.items() if k not in ("notraj", "shared_stream")})
             away = detune_values(mc_off, todo_back)
             retune(mc, away)
             retune(mc, back[::-1])
